@@ -148,16 +148,13 @@ impl OpenOptions {
     /// Will panic if the pagesize the database is opened with is not the same as the pagesize it was created with.
     pub fn open<P: AsRef<Path>>(self, path: P) -> Result<DB> {
         let path: &Path = path.as_ref();
-        let file = if !path.exists() {
-            init_file(
-                path,
-                self.pagesize,
-                self.num_pages,
-                self.flags.direct_writes,
-            )?
-        } else {
-            open_file(path, false, self.flags.direct_writes)?
-        };
+        // Take the lock before looking at the file: another process may be creating it right
+        // now, and must have finished (or not started) initializing it once we hold the lock.
+        let mut file = open_file(path, true, self.flags.direct_writes)?;
+        file.lock_exclusive()?;
+        if file.metadata()?.len() == 0 {
+            init_file(&mut file, self.pagesize, self.num_pages)?;
+        }
 
         let db = DBInner::open(file, self.pagesize, self.flags)?;
         Ok(DB {
@@ -362,8 +359,7 @@ impl DBInner {
     }
 }
 
-fn init_file(path: &Path, pagesize: u64, num_pages: usize, direct_write: bool) -> Result<File> {
-    let mut file = open_file(path, true, direct_write)?;
+fn init_file(file: &mut File, pagesize: u64, num_pages: usize) -> Result<()> {
     file.allocate(pagesize * (num_pages as u64))?;
     let mut buf = vec![0; (pagesize * 4) as usize];
     let mut get_page = |index: u64| {
@@ -403,7 +399,7 @@ fn init_file(path: &Path, pagesize: u64, num_pages: usize, direct_write: bool) -
     file.write_all(&buf[..])?;
     file.flush()?;
     file.sync_all()?;
-    Ok(file)
+    Ok(())
 }
 
 #[cfg(test)]
@@ -501,7 +497,7 @@ fn open_file<P: AsRef<Path>>(path: P, create: bool, direct_write: bool) -> Resul
     let mut open_options = FileOpenOptions::new();
     open_options.write(true).read(true);
     if create {
-        open_options.create_new(true);
+        open_options.create(true);
     }
     if direct_write {
         open_options.custom_flags(O_DIRECT);
@@ -514,7 +510,7 @@ fn open_file<P: AsRef<Path>>(path: P, create: bool, direct_write: bool) -> Resul
     let mut open_options = FileOpenOptions::new();
     open_options.write(true).read(true);
     if create {
-        open_options.create_new(true);
+        open_options.create(true);
     }
     Ok(open_options.open(path)?)
 }
